@@ -569,5 +569,137 @@ proof fn axiom_default_string()
 //@| }
 //@end
 
+
+// ---------------------------------------------------------------------------------------------------------------------
+// C18: the transform of each endpoint as a whole: the closure `|raw| { apply_to_body(_json)(raw, extractor) }` each endpoint hands
+// to HttpRequestConfig::new. The wrapper contract and the extractor contract COMPOSE here (the extractor closure is annotated
+// by rule R9 with the contract proved for its slice above)
+// ---------------------------------------------------------------------------------------------------------------------
+// C18, from the statement: no headers, only the status is kept, and the body is empty or the canonical JSON object with the single
+// member height (a non-negative integer or null)
+spec fn transform_result_ok(raw: TransformArgs, r: HttpRequestResult) -> bool {
+    &&& r.headers@.len() == 0
+    &&& r.status == raw.response.status
+    &&& (r.body@.len() == 0 || exists|h: Option<u64>| r.body@ == str_bytes(#[trigger] serde_json::print_spec(serde_json::height_object_spec(h))))
+}
+//@slice file=watchdog/src/endpoints.rs item="fn endpoint_bitcoin_mainnet_api_bitcore_io" block_after="|raw| {" props=C18
+//@ rewrite R13 "json!\(\{\s*\"height\":\s*(.*?),?\s*\}\)" => "serde_json::height_object(\1)"
+//@ rewrite R13? "\[(\d+)\]" => ".vp_at(\1)"
+//@ rewrite R13? "\[\"([^\"]*)\"\]" => ".vp_get(\"\1\")"
+//@ rewrite R9 "apply_to_body_json\(raw, \|json\| \{" => "apply_to_body_json(raw, |json: serde_json::Value| -> (vp_w: serde_json::Value) ensures serde_json::is_height_object(vp_w) {"
+//@ head
+//@| // R8 slice: the transform closure of endpoint_bitcoin_mainnet_api_bitcore_io
+//@| fn transform_bitcoin_bitcore(raw: TransformArgs) -> (r: HttpRequestResult)
+//@|     ensures transform_result_ok(raw, r),
+//@ tail
+//@end
+//@slice file=watchdog/src/endpoints.rs item="fn endpoint_bitcoin_mainnet_api_blockchair_com" block_after="|raw| {" props=C18
+//@ rewrite R13 "json!\(\{\s*\"height\":\s*(.*?),?\s*\}\)" => "serde_json::height_object(\1)"
+//@ rewrite R13? "\[(\d+)\]" => ".vp_at(\1)"
+//@ rewrite R13? "\[\"([^\"]*)\"\]" => ".vp_get(\"\1\")"
+//@ rewrite R9 "apply_to_body_json\(raw, \|json\| \{" => "apply_to_body_json(raw, |json: serde_json::Value| -> (vp_w: serde_json::Value) ensures serde_json::is_height_object(vp_w) {"
+//@ head
+//@| // R8 slice: the transform closure of endpoint_bitcoin_mainnet_api_blockchair_com
+//@| fn transform_bitcoin_blockchair(raw: TransformArgs) -> (r: HttpRequestResult)
+//@|     ensures transform_result_ok(raw, r),
+//@ tail
+//@end
+//@slice file=watchdog/src/endpoints.rs item="fn endpoint_bitcoin_mainnet_api_blockcypher_com" block_after="|raw| {" props=C18
+//@ rewrite R13 "json!\(\{\s*\"height\":\s*(.*?),?\s*\}\)" => "serde_json::height_object(\1)"
+//@ rewrite R13? "\[(\d+)\]" => ".vp_at(\1)"
+//@ rewrite R13? "\[\"([^\"]*)\"\]" => ".vp_get(\"\1\")"
+//@ rewrite R9 "apply_to_body_json\(raw, \|json\| \{" => "apply_to_body_json(raw, |json: serde_json::Value| -> (vp_w: serde_json::Value) ensures serde_json::is_height_object(vp_w) {"
+//@ head
+//@| // R8 slice: the transform closure of endpoint_bitcoin_mainnet_api_blockcypher_com
+//@| fn transform_bitcoin_blockcypher(raw: TransformArgs) -> (r: HttpRequestResult)
+//@|     ensures transform_result_ok(raw, r),
+//@ tail
+//@end
+//@slice file=watchdog/src/endpoints.rs item="fn endpoint_dogecoin_mainnet_api_bitcore_io" block_after="|raw| {" props=C18
+//@ rewrite R13 "json!\(\{\s*\"height\":\s*(.*?),?\s*\}\)" => "serde_json::height_object(\1)"
+//@ rewrite R13? "\[(\d+)\]" => ".vp_at(\1)"
+//@ rewrite R13? "\[\"([^\"]*)\"\]" => ".vp_get(\"\1\")"
+//@ rewrite R9 "apply_to_body_json\(raw, \|json\| \{" => "apply_to_body_json(raw, |json: serde_json::Value| -> (vp_w: serde_json::Value) ensures serde_json::is_height_object(vp_w) {"
+//@ head
+//@| // R8 slice: the transform closure of endpoint_dogecoin_mainnet_api_bitcore_io
+//@| fn transform_dogecoin_bitcore(raw: TransformArgs) -> (r: HttpRequestResult)
+//@|     ensures transform_result_ok(raw, r),
+//@ tail
+//@end
+//@slice file=watchdog/src/endpoints.rs item="fn endpoint_dogecoin_mainnet_api_blockchair_com" block_after="|raw| {" props=C18
+//@ rewrite R13 "json!\(\{\s*\"height\":\s*(.*?),?\s*\}\)" => "serde_json::height_object(\1)"
+//@ rewrite R13? "\[(\d+)\]" => ".vp_at(\1)"
+//@ rewrite R13? "\[\"([^\"]*)\"\]" => ".vp_get(\"\1\")"
+//@ rewrite R9 "apply_to_body_json\(raw, \|json\| \{" => "apply_to_body_json(raw, |json: serde_json::Value| -> (vp_w: serde_json::Value) ensures serde_json::is_height_object(vp_w) {"
+//@ head
+//@| // R8 slice: the transform closure of endpoint_dogecoin_mainnet_api_blockchair_com
+//@| fn transform_dogecoin_blockchair(raw: TransformArgs) -> (r: HttpRequestResult)
+//@|     ensures transform_result_ok(raw, r),
+//@ tail
+//@end
+//@slice file=watchdog/src/endpoints.rs item="fn endpoint_dogecoin_mainnet_api_blockcypher_com" block_after="|raw| {" props=C18
+//@ rewrite R13 "json!\(\{\s*\"height\":\s*(.*?),?\s*\}\)" => "serde_json::height_object(\1)"
+//@ rewrite R13? "\[(\d+)\]" => ".vp_at(\1)"
+//@ rewrite R13? "\[\"([^\"]*)\"\]" => ".vp_get(\"\1\")"
+//@ rewrite R9 "apply_to_body_json\(raw, \|json\| \{" => "apply_to_body_json(raw, |json: serde_json::Value| -> (vp_w: serde_json::Value) ensures serde_json::is_height_object(vp_w) {"
+//@ head
+//@| // R8 slice: the transform closure of endpoint_dogecoin_mainnet_api_blockcypher_com
+//@| fn transform_dogecoin_blockcypher(raw: TransformArgs) -> (r: HttpRequestResult)
+//@|     ensures transform_result_ok(raw, r),
+//@ tail
+//@end
+//@slice file=watchdog/src/endpoints.rs item="fn endpoint_bitcoin_mainnet_blockchain_info" block_after="|raw| {" props=C18
+//@ rewrite R13 "json!\(\{\s*\"height\":\s*(.*?),?\s*\}\)" => "serde_json::height_object(\1)"
+//@ rewrite R9 "\.map\(\|height\| \{" => ".map(|height: u64| -> (vp_s: String) ensures vp_s == serde_json::print_spec(serde_json::height_object_spec(Some(height))) {"
+//@ rewrite R9 "apply_to_body\(raw, \|text\| \{" => "apply_to_body(raw, |text: String| -> (vp_t: String) ensures vp_t@.len() == 0 || exists|h: u64| vp_t == #[trigger] serde_json::print_spec(serde_json::height_object_spec(Some(h))) { proof { axiom_default_string(); }"
+//@ head
+//@| // R8 slice: the transform closure of endpoint_bitcoin_mainnet_blockchain_info (plain-text height)
+//@| fn transform_bitcoin_blockchain_info(raw: TransformArgs) -> (r: HttpRequestResult)
+//@|     ensures transform_result_ok(raw, r),
+//@| {
+//@|     proof { axiom_empty_string_bytes(); }
+//@ tail
+//@| }
+//@end
+//@slice file=watchdog/src/endpoints.rs item="fn endpoint_bitcoin_mainnet_blockstream_info" block_after="|raw| {" props=C18
+//@ rewrite R13 "json!\(\{\s*\"height\":\s*(.*?),?\s*\}\)" => "serde_json::height_object(\1)"
+//@ rewrite R9 "\.map\(\|height\| \{" => ".map(|height: u64| -> (vp_s: String) ensures vp_s == serde_json::print_spec(serde_json::height_object_spec(Some(height))) {"
+//@ rewrite R9 "apply_to_body\(raw, \|text\| \{" => "apply_to_body(raw, |text: String| -> (vp_t: String) ensures vp_t@.len() == 0 || exists|h: u64| vp_t == #[trigger] serde_json::print_spec(serde_json::height_object_spec(Some(h))) { proof { axiom_default_string(); }"
+//@ head
+//@| // R8 slice: the transform closure of endpoint_bitcoin_mainnet_blockstream_info (plain-text height)
+//@| fn transform_bitcoin_blockstream(raw: TransformArgs) -> (r: HttpRequestResult)
+//@|     ensures transform_result_ok(raw, r),
+//@| {
+//@|     proof { axiom_empty_string_bytes(); }
+//@ tail
+//@| }
+//@end
+//@slice file=watchdog/src/endpoints.rs item="fn endpoint_bitcoin_mempool" block_after="|raw| {" props=C18
+//@ rewrite R13 "json!\(\{\s*\"height\":\s*(.*?),?\s*\}\)" => "serde_json::height_object(\1)"
+//@ rewrite R9 "\.map\(\|height\| \{" => ".map(|height: u64| -> (vp_s: String) ensures vp_s == serde_json::print_spec(serde_json::height_object_spec(Some(height))) {"
+//@ rewrite R9 "apply_to_body\(raw, \|text\| \{" => "apply_to_body(raw, |text: String| -> (vp_t: String) ensures vp_t@.len() == 0 || exists|h: u64| vp_t == #[trigger] serde_json::print_spec(serde_json::height_object_spec(Some(h))) { proof { axiom_default_string(); }"
+//@ head
+//@| // R8 slice: the transform closure of endpoint_bitcoin_mempool (plain-text height)
+//@| fn transform_bitcoin_mempool(raw: TransformArgs) -> (r: HttpRequestResult)
+//@|     ensures transform_result_ok(raw, r),
+//@| {
+//@|     proof { axiom_empty_string_bytes(); }
+//@ tail
+//@| }
+//@end
+//@slice file=watchdog/src/endpoints.rs item="fn endpoint_dogecoin_mainnet_psy_protocol" block_after="|raw| {" props=C18
+//@ rewrite R13 "json!\(\{\s*\"height\":\s*(.*?),?\s*\}\)" => "serde_json::height_object(\1)"
+//@ rewrite R9 "\.map\(\|height\| \{" => ".map(|height: u64| -> (vp_s: String) ensures vp_s == serde_json::print_spec(serde_json::height_object_spec(Some(height))) {"
+//@ rewrite R9 "apply_to_body\(raw, \|text\| \{" => "apply_to_body(raw, |text: String| -> (vp_t: String) ensures vp_t@.len() == 0 || exists|h: u64| vp_t == #[trigger] serde_json::print_spec(serde_json::height_object_spec(Some(h))) { proof { axiom_default_string(); }"
+//@ head
+//@| // R8 slice: the transform closure of endpoint_dogecoin_mainnet_psy_protocol (plain-text height)
+//@| fn transform_dogecoin_psy(raw: TransformArgs) -> (r: HttpRequestResult)
+//@|     ensures transform_result_ok(raw, r),
+//@| {
+//@|     proof { axiom_empty_string_bytes(); }
+//@ tail
+//@| }
+//@end
+
 } // verus!
 fn main() {}
